@@ -525,6 +525,14 @@ func (m *Muxer) createFirstSegment(nextDTS time.Duration, nextNTP time.Time) err
 	return nil
 }
 
+func (m *Muxer) lockParams() {
+	m.mutex.Lock()
+}
+
+func (m *Muxer) unlockParams() {
+	m.mutex.Unlock()
+}
+
 func (m *Muxer) rotateParts(nextDTS time.Duration) error {
 	m.mutex.Lock()
 	err := m.rotatePartsInner(nextDTS)
